@@ -319,6 +319,10 @@ NameOf(kd) == IF kd.k = "c" THEN kd.s ELSE "?"
 \* for a recorder callee); the event is accepted when present, never required
 KwErr(st, tr, env, fv) == Ex(IF NextIs(st, tr, "conv", "s", fv) THEN Adv(st) ELSE st, "TypeError", env)
 
+\* the same for a SOLE starred argument that is a plain non-iterable ("f() argument after * must be an iterable")
+StarErr(a, sval, fv, tr, env) ==
+  IF a.st.ok /\ a.x = "TypeError" /\ ~IsRec(sval) THEN KwErr(a.st, tr, env, fv) ELSE Ex(a.st, a.x, env)
+
 \* str(arg) of every positional argument (deviation call-str-args)
 ReprWalkStr(args, st, tr, env) ==
   LET RECURSIVE W(_, _)
@@ -362,14 +366,14 @@ CallNode(n, st, tr, env) ==
        \* (a plain value that is not iterable: TypeError in place = the recording ends here, or after the keywords)
        IF Len(n.kws) = 0 \/ NextIs(sv.st, tr, "iter", "", sv.v) \/ (~IsRec(sv.v) /\ NotIterable(sv.v) /\ sv.st.l > Len(tr)) THEN
             LET a == Iterate(sv.v, sv.st, tr, sv.env, "Starred") IN
-            IF a.x # "" \/ ~a.st.ok THEN Ex(a.st, a.x, sv.env) ELSE
+            IF a.x # "" \/ ~a.st.ok THEN StarErr(a, sv.v, f.v, tr, sv.env) ELSE
             LET kw == EvalKws(n.kws, 1, a.st, tr, sv.env, <<>>, <<>>) IN
             IF kw.x = "TypeError" /\ kw.st.ok THEN KwErr(kw.st, tr, kw.env, f.v) ELSE IF kw.x # "" \/ ~kw.st.ok THEN Ex(kw.st, kw.x, kw.env) ELSE
             FinishCall(f.v, a.vs, kw.names, kw.vs, kw.st, tr, kw.env, 0)
        ELSE LET kw == EvalKws(n.kws, 1, sv.st, tr, sv.env, <<>>, <<>>) IN
             IF kw.x = "TypeError" /\ kw.st.ok THEN KwErr(kw.st, tr, kw.env, f.v) ELSE IF kw.x # "" \/ ~kw.st.ok THEN Ex(kw.st, kw.x, kw.env) ELSE
             LET a == Iterate(sv.v, kw.st, tr, kw.env, "Starred") IN
-            IF a.x # "" \/ ~a.st.ok THEN Ex(a.st, a.x, kw.env) ELSE
+            IF a.x # "" \/ ~a.st.ok THEN StarErr(a, sv.v, f.v, tr, kw.env) ELSE
             FinishCall(f.v, a.vs, kw.names, kw.vs, a.st, tr, kw.env, 0)
   ELSE LET a == EvalElts(n.args, 1, f.st, tr, f.env, <<>>) IN
        IF a.x # "" \/ ~a.st.ok THEN Ex(a.st, a.x, a.env) ELSE
